@@ -16,6 +16,8 @@ type PreRouteItem struct {
 
 type PreConfigRoute struct {
 	items map[string]*PreRouteItem
+	// dests in the order they were configured: the wildcard search must not depend on map iteration order
+	order []string
 }
 
 func NewPreRouteItem(protocol string, dest string, nextHop string) (*PreRouteItem, error) {
@@ -48,6 +50,9 @@ func NewPreConfigRoute() *PreConfigRoute {
 func (pcr *PreConfigRoute) AddRouteItem(protocol string, dest string, nextHop string) error {
 	item, err := NewPreRouteItem(protocol, dest, nextHop)
 	if err == nil {
+		if _, ok := pcr.items[dest]; !ok {
+			pcr.order = append(pcr.order, dest)
+		}
 		pcr.items[dest] = item
 	}
 	return err
@@ -57,7 +62,8 @@ func (pcr *PreConfigRoute) FindRoute(dest string) (protocol string, host string,
 	if item, ok := pcr.items[dest]; ok {
 		return item.protocol, item.host, item.port, nil
 	}
-	for _, item := range pcr.items {
+	for _, key := range pcr.order {
+		item := pcr.items[key]
 		matched, err := regexp.MatchString(pcr.toRegularExp(item.dest), dest)
 		if matched && err == nil {
 			return item.protocol, item.host, item.port, nil
